@@ -18,6 +18,19 @@ PRECOND_CALLS = {
 }
 
 
+# dependency functions documented to panic on out-of-range results (named explicitly: extern callees are otherwise benign)
+EXTERN_PANICS = {
+    "time::OffsetDateTime::to_offset": "panics when the local date-time leaves the supported year range (use checked_to_offset)",
+    "time::Duration::weeks": "panics on overflow", "time::Duration::days": "panics on overflow",
+    "time::Duration::hours": "panics on overflow", "time::Duration::minutes": "panics on overflow",
+    "time::PrimitiveDateTime::assume_offset": None,
+}
+TIME_ARITH_TRAITS = ("core::ops::arith::Add::add", "core::ops::arith::Sub::sub", "core::ops::arith::AddAssign::add_assign",
+                     "core::ops::arith::SubAssign::sub_assign")
+TIME_TYPES = ("time::offset_date_time::OffsetDateTime", "time::date::Date", "time::primitive_date_time::PrimitiveDateTime",
+              "time::duration::Duration", "time::time::Time", "std::time::Instant", "std::time::SystemTime")
+
+
 def parse_roots(P):
     roots = []
     for fn in P.fns.values():
@@ -68,6 +81,10 @@ def site_list(P, fn):
             elif fid in ("core::ops::index::Index::index", "core::ops::index::IndexMut::index_mut"):
                 st = P.tstr(fn.crate, f["self_ty"]) if "self_ty" in f else "?"
                 out.append(("index", st, bi, t["line"], t.get("macros", [])))
+            elif EXTERN_PANICS.get(nm):
+                out.append(("extern", nm, bi, t["line"], t.get("macros", [])))
+            elif fid in TIME_ARITH_TRAITS and "self_ty" in f and P.tstr(fn.crate, f["self_ty"]).startswith(TIME_TYPES):
+                out.append(("extern", "%s on %s" % (last, P.tstr(fn.crate, f["self_ty"]).rsplit("::", 1)[-1]), bi, t["line"], t.get("macros", [])))
             elif nm.endswith("RefCell::<T>::borrow") or nm.endswith("RefCell::<T>::borrow_mut"):
                 out.append(("refcell", last, bi, t["line"], t.get("macros", [])))
             elif last in PRECOND_CALLS and not f["krate"].startswith("liquid") and (
